@@ -345,10 +345,13 @@ pub fn spec(check: &str, tier: &str) -> Option<CheckSpec> {
                     }
                 }
             }
+            for (i, p) in fam::prelude_bases(tier).into_iter().enumerate() {
+                js.push(Job { id: format!("C16-prelude-{}", i), check: "C16".into(), tier: tier.into(), program: p, cfg: cfg.clone(), extra: serde_json::json!({"mode": "prelude"}) });
+            }
             Some(CheckSpec {
                 id: "C16",
                 level: "model_checking",
-                rule: "K diverse programs (atomics, locks, condvar, Notify, park, channels, arcs, leaks, deadlocks): all ordered pairs back to back in one process, all unordered pairs on two OS threads, and every iteration of every program replayed alone in a fresh process from the checkpoint stored before it; non-trivial = >= 2 iterations",
+                rule: "K diverse programs (atomics, locks, condvar, Notify, park, channels, arcs, leaks, deadlocks): all ordered pairs back to back in one process, all unordered pairs on two OS threads, and every iteration of every program replayed alone in a fresh process from the checkpoint stored before it; prelude invariance: an independent racing prelude in front of a program, the decision sub-tree explored after it must be the same under every order of the prelude; non-trivial = >= 2 iterations",
                 assumptions: vec!["a fresh child process is the reference for 'no earlier model ran'", "quick tier replays about 12 evenly spaced iterations per program in isolation, thorough all"],
                 wall_cap: Duration::from_secs(if tier == "quick" { 60 } else { 600 }),
                 jobs: js,
